@@ -326,3 +326,70 @@ func RunRangeCopy(w *World, r *Report, fns []*ssa.Function) {
 		})
 	}
 }
+
+// RunFullScan: the subsetting functions translate a table of the source font
+// entry by entry.  A loop that fills a table of the subset from a table of
+// the source must visit every entry: it has no exit other than its own loop
+// condition (an early `break` once "enough" entries were produced drops the
+// entries not yet visited — several characters can share a glyph, several
+// rules an input).  Exits that panic are not exits in this sense.
+func RunFullScan(w *World, r *Report, fns []*ssa.Function) {
+	r.Rule("fullscan: in the subsetting functions a loop that stores into a map of the subset (one entry per visited entry of the source table) is left only through its loop condition: no break or return inside the body, so every entry of the source table is translated")
+	for _, fn := range fns {
+		loops := naturalLoops(fn)
+		for _, l := range loops {
+			// the translation loop itself: the innermost loop around the map update
+			var upd *ssa.MapUpdate
+			for b := range l.body {
+				inner := false
+				for _, m := range loops {
+					if m != l && len(m.body) < len(l.body) && m.body[b] && l.body[m.head] {
+						inner = true
+					}
+				}
+				if inner {
+					continue
+				}
+				for _, in := range b.Instrs {
+					if mu, ok := in.(*ssa.MapUpdate); ok && upd == nil {
+						if isOut, _ := outputContainer(mu.Map); isOut {
+							upd = mu
+						}
+					}
+				}
+			}
+			if upd == nil {
+				continue
+			}
+			key := r.MkKey("fullscan", fnName(fn), "loop filling "+shortName(upd.Map.Type().String()))
+			var early *ssa.BasicBlock
+			for b := range l.body {
+				if b == l.head {
+					continue
+				}
+				for _, s := range b.Succs {
+					if l.body[s] {
+						continue
+					}
+					if len(s.Instrs) > 0 {
+						if _, isPanic := s.Instrs[len(s.Instrs)-1].(*ssa.Panic); isPanic {
+							continue
+						}
+					}
+					early = b
+				}
+			}
+			if early == nil {
+				r.OK("fullscan", key, w.Pos(upd.Pos()), "left through the loop condition only")
+			} else {
+				pos := upd.Pos()
+				for _, in := range early.Instrs {
+					if in.Pos().IsValid() {
+						pos = in.Pos()
+					}
+				}
+				r.Fail("fullscan", key, w.Pos(pos), "the loop that translates the source table into the subset's table can be left from inside its body (break or return): the entries not visited yet are dropped — with several characters mapped to one retained glyph, or several rules sharing an input, the subset loses mappings although their glyphs are retained", nil)
+			}
+		}
+	}
+}
